@@ -224,14 +224,14 @@ func main() {
 				if v.Model != nil {
 					val = v.Model[r.T.Name]
 				}
-				vo.Vec = append(vo.Vec, VecItem{Kind: r.Kind, Val: decode(r.Kind, val), Tag: r.Tag})
+				vo.Vec = append(vo.Vec, VecItem{Kind: r.Kind, Val: decodeCased(r.Kind, val, v.Model["lower("+r.T.Name+")"]), Tag: r.Tag})
 			}
 			eo.Violations = append(eo.Violations, vo)
 		}
 		for _, w := range ex.Witnesses {
 			wo := WitnessOut{Reached: w.Reached}
 			for _, r := range w.ND {
-				wo.Vec = append(wo.Vec, VecItem{Kind: r.Kind, Val: decode(r.Kind, w.Model[r.T.Name])})
+				wo.Vec = append(wo.Vec, VecItem{Kind: r.Kind, Val: decodeCased(r.Kind, w.Model[r.T.Name], w.Model["lower("+r.T.Name+")"])})
 			}
 			eo.Witnesses = append(eo.Witnesses, wo)
 		}
@@ -293,6 +293,46 @@ func decode(kind, val string) string {
 		return ""
 	}
 	return val
+}
+
+// decodeCased: a string whose model code differs from the code of its lower-case image is rendered as a case variant
+// of that image (a distinct variant per distinct code), so that strings.ToLower / EqualFold behave natively as in the model
+var caseVariants = map[string][]string{}
+
+func decodeCased(kind, val, lower string) string {
+	if kind != "string" || !smt.StrAsInt || lower == "" {
+		return decode(kind, val)
+	}
+	n, ok1 := smt.ParseInt(val)
+	l, ok2 := smt.ParseInt(lower)
+	if !ok1 || !ok2 || n.Cmp(l) == 0 {
+		return decode(kind, val)
+	}
+	base := smt.DecodeStr(l.Int64())
+	seen := caseVariants[l.String()]
+	idx := -1
+	for i, c := range seen {
+		if c == n.String() {
+			idx = i
+		}
+	}
+	if idx < 0 {
+		idx = len(seen)
+		caseVariants[l.String()] = append(seen, n.String())
+	}
+	// variant idx+1 as a bit mask over the letters of the base
+	mask := idx + 1
+	b := []byte(base)
+	bit := 0
+	for i, c := range b {
+		if c >= 'a' && c <= 'z' {
+			if mask&(1<<uint(bit)) != 0 {
+				b[i] = c - 32
+			}
+			bit++
+		}
+	}
+	return string(b)
 }
 
 func dedup(in []string, max int) []string {
